@@ -7,7 +7,7 @@
    parked where it should not be; that worker functions return is the property's own
    hypothesis. *)
 From Coq Require Import List Arith.
-From VQ Require Import SliceWake SliceWakeProofs SliceBatch SliceBatchProofs Lockset LocksetProofs.
+From VQ Require Import SliceWake SliceWakeProofs SliceBatch SliceBatchProofs Lockset LocksetProofs SlicePool SlicePoolProofs.
 Import ListNotations.
 
 (* No lost wake-up: whenever the event loop is parked while its guard is true, a signal is
@@ -48,6 +48,14 @@ Theorem C03_no_recursive_read_lock :
   forall s t s', lkstep s (LRLock t) = Some s' -> is_reader s t = false /\ writer s = None.
 Proof. exact no_recursive_read_lock. Qed.
 Print Assumptions C03_no_recursive_read_lock.
+
+(* No job is left Processing without a goroutine (coq/SlicePool.v): a job payload in a pool
+   node's channel always finds a live server with no stop payload ahead of it, and the server's
+   receive is enabled. *)
+Theorem C03_dispatched_job_is_received :
+  forall s g, PReachable s -> jobsq s = 1 -> exists s', pstep s (NRecvJob g) = Some s'.
+Proof. exact job_is_receivable. Qed.
+Print Assumptions C03_dispatched_job_is_received.
 
 (* non-vacuity: a completion makes room while the loop is parked; its notify wakes the loop *)
 Example C03_example :
